@@ -171,7 +171,7 @@ fn replay(args: &Args) {
         if nsamp < nsamples && (distinct % 97 == 1 || nn > 12) {
             nsamp += 1;
             let want: Vec<Value> = s.docs.iter().map(|d| exp_json(&d.val)).collect();
-            samples.emit(json!({"yaml": ytext, "json": want}));
+            samples.emit(json!({"yaml": ytext, "json": want, "class": class_for("value", &s), "vclass": class_for("validate", &s)}));
         }
     }
     let m = out.finish();
